@@ -848,7 +848,7 @@ def increment_is_kept(prog, chk, rid, fams=tuple(FAMILIES), floor=6):
                     # the own block's counter (copy constructors initialise the pointer first): the handle already holds it
                     chk.ok(rid, f, "increment of the block the handle already points to", f.where(i), "x is this->%s" % ptr, nontrivial=False)
                     continue
-                if keep and C.paths_all_pass(f, ipos, set(keep)):
+                if keep and (C.paths_all_pass(f, ipos, set(keep)) or fin.through_all_pass(f, ipos, set(keep))):
                     chk.ok(rid, f, "reference to %s acquired and kept" % x.replace("this->", ""), f.where(i), "store of the block on every path through the increment", evals=2)
                 else:
                     chk.bad(rid, f, "reference-acquired-but-not-kept:" + x.replace("this->", ""), f.where(i),
